@@ -11,12 +11,14 @@ TOL = 1e-9
 
 
 # ---------------------------------------------------------------- building real shapes
-def build_shape(desc, with_lms=True):
+def build_shape(desc, with_lms=True, d=None):
     import menpo.shape as ms
     from menpo.image import Image
 
     cls = desc["cls"]
     P = L.pts(desc["pts"])
+    if len(desc["pts"]) == 0 and d is not None:
+        P = np.zeros((0, d))            # a group without points still has the dimensionality of its owner
     n = P.shape[0]
     if cls == "PointCloud":
         s = ms.PointCloud(P)
@@ -42,7 +44,7 @@ def build_shape(desc, with_lms=True):
         raise ValueError(cls)
     if with_lms:
         for name, sub in desc.get("lms", []):
-            s.landmarks[name] = build_shape(sub)
+            s.landmarks[name] = build_shape(sub, d=P.shape[1])
     return s
 
 
@@ -199,7 +201,10 @@ def _expect_shape(got, exp, tol, path="shape"):
     """compare a real shape with the abstract expected shape (class, points, landmark tree)"""
     if type(got).__name__ != exp["cls"]:
         return "%s: class %s, expected %s" % (path, type(got).__name__, exp["cls"])
-    if exp["pts"] != []:
+    if exp.get("empty"):
+        if got.n_points != 0:
+            return "%s: a group without points came back with %d points" % (path, got.n_points)
+    elif exp["pts"] != []:
         E = L.pts(exp["pts"])
         if got.points.shape != E.shape or not L.close(got.points, E, tol):
             return "%s: points differ from the exact image (max diff %.3g)" % (path, L.maxdiff(got.points, E))
